@@ -1147,8 +1147,10 @@ Definition quirks_of_mask (m : nat) : quirks :=
      q_metanl := Nat.testbit m 4; q_clear := Nat.testbit m 5; q_lead := Nat.testbit m 6;
      q_comment_cont := Nat.testbit m 7 |}.
 
-(* subsets ordered by size, so that the smallest explanation is reported *)
-Definition masks : list nat := [1; 2; 4; 8; 16; 32; 64; 128; 3; 5; 6; 9; 10; 12; 17; 18; 20; 24; 33; 34; 36; 40; 48; 65; 66; 68; 72; 80; 96; 129; 130; 132; 136; 144; 160; 192; 7; 11; 13; 14; 19; 21; 22; 25; 26; 28; 35; 37; 38; 41; 42; 44; 49; 50; 52; 56; 67; 69; 70; 73; 74; 76; 81; 82; 84; 88; 97; 98; 100; 104; 112; 131; 133; 134; 137; 138; 140; 145; 146; 148; 152; 161; 162; 164; 168; 176; 193; 194; 196; 200; 208; 224; 15; 23; 27; 29; 30; 39; 43; 45; 46; 51; 53; 54; 57; 58; 60; 71; 75; 77; 78; 83; 85; 86; 89; 90; 92; 99; 101; 102; 105; 106; 108; 113; 114; 116; 120; 135; 139; 141; 142; 147; 149; 150; 153; 154; 156; 163; 165; 166; 169; 170; 172; 177; 178; 180; 184; 195; 197; 198; 201; 202; 204; 209; 210; 212; 216; 225; 226; 228; 232; 240; 31; 47; 55; 59; 61; 62; 79; 87; 91; 93; 94; 103; 107; 109; 110; 115; 117; 118; 121; 122; 124; 143; 151; 155; 157; 158; 167; 171; 173; 174; 179; 181; 182; 185; 186; 188; 199; 203; 205; 206; 211; 213; 214; 217; 218; 220; 227; 229; 230; 233; 234; 236; 241; 242; 244; 248; 63; 95; 111; 119; 123; 125; 126; 159; 175; 183; 187; 189; 190; 207; 215; 219; 221; 222; 231; 235; 237; 238; 243; 245; 246; 249; 250; 252; 127; 191; 223; 239; 247; 251; 253; 254; 255]%nat.
+(* explanations tried: every single deviation, every pair, all of them (a mismatch that needs three or more
+   particular deviations at once is reported as unexplained: fail closed, and an unexplained case costs 37 model
+   evaluations instead of 255) *)
+Definition masks : list nat := [128; 64; 32; 16; 8; 4; 2; 1; 192; 160; 144; 136; 132; 130; 129; 96; 80; 72; 68; 66; 65; 48; 40; 36; 34; 33; 24; 20; 18; 17; 12; 10; 9; 6; 5; 3; 255]%nat.
 
 (* 0 = midgard equals the specification; 100+mask = equals the model with exactly these deviations switched on;
    1 = unexplained *)
@@ -1158,6 +1160,10 @@ Definition check_case (k : case) : Z :=
        | Some m => (100 + Z.of_nat m)%Z
        | None => 1%Z
        end.
+
+(* first pass of the driver: does midgard equal the specification on this case? (0 yes, 2 no; the explanation search
+   of check_case is then run on the differing cases only) *)
+Definition check_plain (k : case) : Z := if agrees all_off k then 0%Z else 2%Z.
 
 (* first differing step, for replay files: index of the first operation / query whose answer differs (spec model) *)
 Definition first_diff (k : case) : Z * Z :=
